@@ -118,7 +118,7 @@ def transaction(rng, L, noisy):
 
 def traces(target, rng, tier):
     L = target.params["L"]
-    n = 24 if tier == "quick" else 150
+    n = 16 if tier == "quick" else 150
     out = []
     for k in range(n):
         tr = []
@@ -146,24 +146,24 @@ def alphabets(t, tier):
     """(tag, Coq alphabet, description) per target."""
     ctrl = ("ctrl", "hr_alphabet [0] both both both both both [0] [0] [0;1;2;3]",
             "all 5 control bits and all RWDS values free; address/write_data/dq_i = 0")
-    data = ("data", f"hr_alphabet [{A1}] both both both both both [{W1}] [{D1}; {D2}] [0;1;2;3]",
-            f"all 5 control bits and all RWDS values free; address = 0x{A1:X}, write_data = 0x{W1:X}, "
-            f"dq_i in {{0x{D1:X}, 0x{D2:X}}}")
-    data2 = ("data2", f"hr_alphabet [0; {A1}] both both both both both [0; {W1}] [0; {D1}] [0;1;2;3]",
-             f"all 5 control bits and all RWDS values free; address in {{0, 0x{A1:X}}}, write_data in {{0, 0x{W1:X}}}, "
-             f"dq_i in {{0, 0x{D1:X}}}")
+    data = ("data", f"hr_alphabet [{A1}] both both [false] both both [{W1}] [{D1}; {D2}] [0;1;2;3]",
+            f"start/register_space/perform_write/final_word and all RWDS values free, single_page = 0; address = 0x{A1:X}, "
+            f"write_data = 0x{W1:X}, dq_i in {{0x{D1:X}, 0x{D2:X}}}")
+    data2 = ("data2", f"hr_alphabet [0; {A1}] both both [false] both both [0; {W1}] [0; {D1}] [0;1;2;3]",
+             f"start/register_space/perform_write/final_word and all RWDS values free, single_page = 0; address in "
+             f"{{0, 0x{A1:X}}}, write_data in {{0, 0x{W1:X}}}, dq_i in {{0, 0x{D1:X}}}")
     addr = ("addr", f"hr_alphabet (0 :: {0xFFFFFFFF} :: one_hot32) [false] [false] [false] both [true] [0] [0] [0; 2]",
             "memory-space linear reads: start free, address in {0, all-ones, the 32 one-hot values}, RWDS in {00, 10}")
-    addr2 = ("addr2", f"hr_alphabet (0 :: {0xFFFFFFFF} :: one_hot32) both [false] both both [true] [0] [0] [0; 2]",
-             "reads: start/register_space/single_page free, address in {0, all-ones, the 32 one-hot values}, RWDS in {00, 10}")
+    addr2 = ("addr2", f"hr_alphabet (0 :: {0xFFFFFFFF} :: one_hot32) both [false] [false] both [true] [0] [0] [0; 2]",
+             "linear reads: start/register_space free, address in {0, all-ones, the 32 one-hot values}, RWDS in {00, 10}")
     high = t.params["high"]
     if tier == "quick":
         return [ctrl] if high == 14 else [data, addr]
     if high == 14:
-        return [ctrl, data2]
+        return [ctrl, data]
     if high == 3:
         return [ctrl, data, data2, addr2]
-    return [ctrl, data]
+    return [data]
 
 
 def model(t):
